@@ -30,7 +30,7 @@ def arena_shards(seed, tier, profiles, iters_q, iters_t, ops=200, miri_q=1, miri
     for i in range(nm):
         ma = MAS[(seed + i) % 5]
         prof = profiles[i % len(profiles)]
-        out.append(sh("miri", workload, seed, 1000 + i, timeout=900, ma=ma, iters=(1 if tier == "quick" else 3), ops=(45 if tier == "quick" else 80), profile=prof, **extra))
+        out.append(sh("miri", workload, seed, 1000 + i, timeout=900, ma=ma, iters=(1 if tier == "quick" else 3), ops=(30 if tier == "quick" else 80), profile=prof, **extra))
     if tier == "thorough":
         for i in range(asan_t):
             ma = MAS[i % 5]
@@ -127,7 +127,7 @@ def plan_C09(tier, seed):
                 shards.append(sh(eng, "c09", seed, n, timeout=900, ma=ma, iters=(12 if q else 40), ops=(70 if q else 110), max_k=(40 if q else 200)))
                 n += 1
     for i in range(1 if q else 8):
-        shards.append(sh("miri", "c09", seed, 1000 + i, timeout=1500, ma=MAS[(seed + i) % 5], iters=1, ops=(12 if q else 25), max_k=(3 if q else 8)))
+        shards.append(sh("miri", "c09", seed, 1000 + i, timeout=1500, ma=MAS[(seed + i) % 5], iters=1, ops=(9 if q else 25), max_k=(2 if q else 8)))
     return dict(level="fault_enumeration",
                 rule=("one evaluation = one (history, refusal schedule) pair, run twice (try_ methods / infallible twins); for every generated history the fault-free run counts its n chunk requests, "
                       "then Kth(k) for every k<=min(n,max_k), FromKth, Above(size) and Above(size-16) for every chunk size seen, All and Prob are enumerated; "
@@ -147,7 +147,7 @@ def plan_C11(tier, seed):
     # random histories with the try_with-heavy profile as well
     shards += arena_shards(seed, tier, ["trywith"], 60, 600, miri_q=0, miri_t=4, asan_t=2)
     for i in range(1 if q else 12):
-        shards.append(sh("miri", "c11", seed, i, timeout=1500, ma=MAS[(seed + i) % 5], stride=(900 if q else 300)))
+        shards.append(sh("miri", "c11", seed, i, timeout=1500, ma=MAS[(seed + i) % 5], stride=(2500 if q else 300)))
     return dict(level="exploration",
                 rule=("one evaluation = one steered case (arena parked so that exactly L bytes are left, then one failing fallible initialiser + reuse probe + follow-up ops) or one random history of the trywith profile; "
                       "distinct = distinct (type, entry point, initialiser behaviour, bytes left, allocator refusing or not, outcome, MIN_ALIGN) tuples"),
